@@ -1069,6 +1069,9 @@ class LieTensor(Tensor):
         '''
         return self.ltype.Mul(self, other)
 
+    def __imul__(self, other):
+        return self.copy_(self.ltype.Mul(self, other))
+
     def mul(self, other):
         r'''
         See :meth:`pypose.mul`
